@@ -147,79 +147,84 @@ func SignatureCase(c *Case) M {
 		opKeys = append(opKeys, opKey{id: S(k, "kid"), use: S(k, "use"), alg: "", key: sk.Pub})
 	}
 	now := time.Now()
-	claims := M{"iss": sigIssuer, "sub": "user-1", "aud": []string{"cid"}, "azp": "cid", "exp": now.Unix() + 3600, "iat": now.Unix() - 5,
-		"jti": "jti-1", "client_id": "cid", "marker": "signed"}
-	payload, _ := json.Marshal(claims)
-	header, _ := json.Marshal(M{"alg": alg, "kid": S(t, "kid"), "typ": "JWT"})
-	if S(t, "kid") == "" {
-		header, _ = json.Marshal(M{"alg": alg, "typ": "JWT"})
-	}
-	h64, p64 := b64.EncodeToString(header), b64.EncodeToString(payload)
-	input := []byte(h64 + "." + p64)
-	// who signs
-	var sig []byte
-	signer := func(k *modelstore.SignKey, typ string) []byte {
-		if typeOfAlg(alg) == typ {
-			return rawSign(alg, k, input)
+	build := func(expOff, iatOff int64) string {
+		claims := M{"iss": sigIssuer, "sub": "user-1", "aud": []string{"cid"}, "azp": "cid", "exp": now.Unix() + expOff, "iat": now.Unix() + iatOff,
+			"jti": "jti-1", "client_id": "cid", "marker": "signed"}
+		payload, _ := json.Marshal(claims)
+		header, _ := json.Marshal(M{"alg": alg, "kid": S(t, "kid"), "typ": "JWT"})
+		if S(t, "kid") == "" {
+			header, _ = json.Marshal(M{"alg": alg, "typ": "JWT"})
 		}
-		return randBytes(64)
+		h64, p64 := b64.EncodeToString(header), b64.EncodeToString(payload)
+		input := []byte(h64 + "." + p64)
+		// who signs
+		var sig []byte
+		signer := func(k *modelstore.SignKey, typ string) []byte {
+			if typeOfAlg(alg) == typ {
+				return rawSign(alg, k, input)
+			}
+			return randBytes(64)
+		}
+		switch {
+		case alg == "none":
+			sig = []byte{}
+		case by == "key1" && len(keys) >= 1:
+			sig = signer(keys[0], S(ksAbs[0].(map[string]any), "type"))
+		case by == "key2" && len(keys) >= 2:
+			sig = signer(keys[1], S(ksAbs[1].(map[string]any), "type"))
+		case by == "foreign" && typeOfAlg(alg) != "none":
+			sig = rawSign(alg, modelstore.GenKey("c02-foreign-"+typeOfAlg(alg), algOfType(typeOfAlg(alg))), input)
+		case by == "hmacpub":
+			der, _ := x509.MarshalPKIXPublicKey(keys[0].Pub)
+			m := hmac.New(sha256.New, der)
+			m.Write(input)
+			sig = m.Sum(nil)
+		default:
+			sig = randBytes(64)
+		}
+		s64 := b64.EncodeToString(sig)
+		// what happened to the payload segment afterwards
+		other := M{}
+		for k, v := range claims {
+			other[k] = v
+		}
+		other["sub"], other["marker"] = "attacker", "forged"
+		forged, _ := json.Marshal(other)
+		shown := p64
+		switch S(t, "edit") {
+		case "reencoded":
+			re, _ := json.MarshalIndent(claims, "", "  ")
+			shown = b64.EncodeToString(re)
+		case "otherclaims":
+			shown = b64.EncodeToString(forged)
+		}
+		var token string
+		switch S(t, "ser") {
+		case "compact":
+			token = h64 + "." + shown + "." + s64
+		case "twoseg":
+			token = h64 + "." + shown
+		case "emptysig":
+			token = h64 + "." + shown + "."
+		case "fourseg":
+			token = h64 + "." + shown + "." + s64 + "." + s64
+		case "flat":
+			j, _ := json.Marshal(M{"protected": h64, "payload": shown, "signature": s64})
+			token = string(j)
+		case "smuggled":
+			// JSON serialisation whose unprotected header carries ".<forged payload>." : oidc.ParseToken reads the forged claims
+			j, _ := json.Marshal(M{"protected": h64, "payload": shown, "signature": s64, "header": M{"x": "." + b64.EncodeToString(forged) + "."}})
+			token = string(j)
+		case "smuggled2":
+			j, _ := json.Marshal(M{"payload": shown, "signatures": []M{
+				{"protected": h64, "signature": s64, "header": M{"x": "." + b64.EncodeToString(forged) + "."}},
+				{"protected": h64, "signature": s64}}})
+			token = string(j)
+		}
+		return token
 	}
-	switch {
-	case alg == "none":
-		sig = []byte{}
-	case by == "key1" && len(keys) >= 1:
-		sig = signer(keys[0], S(ksAbs[0].(map[string]any), "type"))
-	case by == "key2" && len(keys) >= 2:
-		sig = signer(keys[1], S(ksAbs[1].(map[string]any), "type"))
-	case by == "foreign" && typeOfAlg(alg) != "none":
-		sig = rawSign(alg, modelstore.GenKey("c02-foreign-"+typeOfAlg(alg), algOfType(typeOfAlg(alg))), input)
-	case by == "hmacpub":
-		der, _ := x509.MarshalPKIXPublicKey(keys[0].Pub)
-		m := hmac.New(sha256.New, der)
-		m.Write(input)
-		sig = m.Sum(nil)
-	default:
-		sig = randBytes(64)
-	}
-	s64 := b64.EncodeToString(sig)
-	// what happened to the payload segment afterwards
-	other := M{}
-	for k, v := range claims {
-		other[k] = v
-	}
-	other["sub"], other["marker"] = "attacker", "forged"
-	forged, _ := json.Marshal(other)
-	shown := p64
-	switch S(t, "edit") {
-	case "reencoded":
-		re, _ := json.MarshalIndent(claims, "", "  ")
-		shown = b64.EncodeToString(re)
-	case "otherclaims":
-		shown = b64.EncodeToString(forged)
-	}
-	var token string
-	switch S(t, "ser") {
-	case "compact":
-		token = h64 + "." + shown + "." + s64
-	case "twoseg":
-		token = h64 + "." + shown
-	case "emptysig":
-		token = h64 + "." + shown + "."
-	case "fourseg":
-		token = h64 + "." + shown + "." + s64 + "." + s64
-	case "flat":
-		j, _ := json.Marshal(M{"protected": h64, "payload": shown, "signature": s64})
-		token = string(j)
-	case "smuggled":
-		// JSON serialisation whose unprotected header carries ".<forged payload>." : oidc.ParseToken reads the forged claims
-		j, _ := json.Marshal(M{"protected": h64, "payload": shown, "signature": s64, "header": M{"x": "." + b64.EncodeToString(forged) + "."}})
-		token = string(j)
-	case "smuggled2":
-		j, _ := json.Marshal(M{"payload": shown, "signatures": []M{
-			{"protected": h64, "signature": s64, "header": M{"x": "." + b64.EncodeToString(forged) + "."}},
-			{"protected": h64, "signature": s64}}})
-		token = string(j)
-	}
+	token := build(3600, -5)
+	expiredToken := build(-3600, -7200) // the same token, expired an hour ago: an id_token_hint is still believed - if its signature is
 	allowed := allowedLists[S(t, "allowed")]
 	o := M{}
 	judge := func(name string, f func() (M, error)) {
@@ -286,6 +291,19 @@ func SignatureCase(c *Case) M {
 			opts = append(opts, op.WithSupportedIDTokenHintSigningAlgorithms(allowed...))
 		}
 		cl, err := op.VerifyIDTokenHint[*oidc.IDTokenClaims](context.Background(), token, op.NewIDTokenHintVerifier(sigIssuer, opks, opts...))
+		return asMap(cl), err
+	})
+	judge("hintExpired", func() (M, error) {
+		var opts []op.IDTokenHintVerifierOpt
+		if allowed != nil {
+			opts = append(opts, op.WithSupportedIDTokenHintSigningAlgorithms(allowed...))
+		}
+		cl, err := op.VerifyIDTokenHint[*oidc.IDTokenClaims](context.Background(), expiredToken, op.NewIDTokenHintVerifier(sigIssuer, opks, opts...))
+		var expired op.IDTokenHintExpiredError
+		if errors.As(err, &expired) && cl != nil {
+			// "expired but otherwise valid": every caller treats this answer as a verified hint
+			return asMap(cl), nil
+		}
 		return asMap(cl), err
 	})
 	// oidc.FindMatchingKey directly
